@@ -28,7 +28,7 @@ struct Scn {
 }
 
 const IDLE: &str = "lLoadF,lSetWaker,lRecheckF";
-const SCNS: [Scn; 13] = [
+const SCNS: [Scn; 14] = [
     Scn { name: "idle-shutdown", point: "", occurrence: 0, conns_before: 0, hook: "", main: "shutdown", panic: false, hooks: 0,
         pre: "lLoadF,lSetWaker,lRecheckF,callerStore,callerLoad,callerNotify,lLoadT,lClose,lUncount,lUncLoad,compRead,compFinish", rest: "", ports: 1, target: 0 },
     Scn { name: "lost-wakeup", point: "accept:loaded-false", occurrence: 1, conns_before: 0, hook: "shutdown", main: "none", panic: false, hooks: 0,
@@ -51,6 +51,10 @@ const SCNS: [Scn; 13] = [
         pre: "lLoadF,lSetWaker,lRecheckF,connect,lAcceptReg,lCountSpawn,lLoadF,lSetWaker,lRecheckF,callerStore,callerLoad,callerNotify,lLoadT,lClose,lUncount", rest: "cFinish,cLoad,compRead,compFinish", ports: 1, target: 0 },
     Scn { name: "pre-shutdown-hook", point: "", occurrence: 0, conns_before: 0, hook: "", main: "shutdown", panic: false, hooks: 1,
         pre: "hookRegister,lLoadF,lSetWaker,lRecheckF,callerStore,callerLoad,callerNotify,lLoadT,lClose,lUncount,lUncLoad,compRead", rest: "hookAck,compFinish", ports: 1, target: 0 },
+    // a second caller arrives inside `_shutdown()`, after the first passed the once-only test and before it spawned the completion
+    // task, with a pre-shutdown hook registered: still one completion task, and it waits for the hook
+    Scn { name: "second-caller-at-spawn-with-hook", point: "_shutdown:spawn-completion", occurrence: 1, conns_before: 0, hook: "shutdown", main: "shutdown", panic: false, hooks: 1,
+        pre: "hookRegister,lLoadF,lSetWaker,lRecheckF,callerStore,callerLoad,callerNotify,lLoadT,lClose,lUncount,lUncLoad,callerStore,callerLoad,callerNotify,compRead", rest: "hookAck,compFinish", ports: 1, target: 0 },
     // two listeners (two ports): one of them has just accepted a connection (its waker slot is empty) when shutdown()
     // notifies — the other one, parked in accept(), must be woken all the same (once for each of the two being the busy one)
     Scn { name: "two-listeners-first-busy", point: "accept:got-stream", occurrence: 1, conns_before: 0, hook: "shutdown", main: "connect", panic: false, hooks: 0,
@@ -93,13 +97,16 @@ impl Nested {
         let mgr_slot: Arc<Mutex<Option<Arc<kvarn::shutdown::Manager>>>> = Arc::new(Mutex::new(None));
         let hits = Arc::new(AtomicUsize::new(0));
         let fired = Arc::new(AtomicBool::new(false));
+        // how often a completion task was started (the point lies behind the once-only test of `_shutdown`)
+        let spawns = Arc::new(AtomicUsize::new(0));
         let install = |when_ready: bool| {
             if s.point.is_empty() { return; }
             let _ = when_ready;
             let (point, occ, hook) = (s.point, s.occurrence, s.hook);
-            let (slot, hits, fired, gate) = (mgr_slot.clone(), hits.clone(), fired.clone(), gate.clone());
+            let (slot, hits, fired, gate, spawns) = (mgr_slot.clone(), hits.clone(), fired.clone(), gate.clone(), spawns.clone());
             let handle = rt.handle().clone();
             kvarn::verif::set_callback(Some(Arc::new(move |name: &'static str, _ctx: u64| {
+                if name == "_shutdown:spawn-completion" { spawns.fetch_add(1, Ordering::SeqCst); }
                 if name != point || fired.load(Ordering::SeqCst) { return; }
                 if hits.fetch_add(1, Ordering::SeqCst) + 1 != occ { return; }
                 fired.store(true, Ordering::SeqCst);
@@ -192,7 +199,8 @@ impl Nested {
         drop(clients);
         rt.shutdown_background();
         if !hook_fired { return format!("inconclusive: hook point {} not reached", s.point); }
-        format!("mid={} end={} late={} closed={} count={count} acked={}", b01(mid), b01(end), b01(late), b01(closed), b01(s.hooks == 0 || acked.load(Ordering::SeqCst)))
+        let twice = if spawns.load(Ordering::SeqCst) > 1 { format!(" completion-tasks={}", spawns.load(Ordering::SeqCst)) } else { String::new() };
+        format!("mid={} end={} late={} closed={} count={count} acked={}{twice}", b01(mid), b01(end), b01(late), b01(closed), b01(s.hooks == 0 || acked.load(Ordering::SeqCst)))
     }
 }
 impl Group for Nested {
@@ -203,7 +211,7 @@ impl Group for Nested {
         "c10.scn"
     }
     fn rule(&self) -> &'static str {
-        "a real server (one listener) built with --features verif-hooks; a callback at a hook point runs a complete `shutdown()` / lets the last handler finish *at that point* (nested pre-emption: deterministic, no thread parking): idle shutdown, flag loaded false then complete shutdown then set_waker (lost wake-up window), waker set then shutdown, shutdown between accept() returning and the counting (accepted-not-counted window) and between counting and spawn, shutdown with a running connection, the last connection ending right after the flag store and right before notify, a second shutdown() caller inside remove_connection, a panicking handler, a pre-shutdown hook; observations: is wait() resolved while a connection is unfinished (must not), after all finished (must), is the port closed, the connection count, hooks acknowledged — compared with the model's run of the corresponding schedule of atomic actions; each scenario is repeated (3x quick); non-trivial = a hook point was used"
+        "a real server (one listener) built with --features verif-hooks; a callback at a hook point runs a complete `shutdown()` / lets the last handler finish *at that point* (nested pre-emption: deterministic, no thread parking): idle shutdown, flag loaded false then complete shutdown then set_waker (lost wake-up window), waker set then shutdown, shutdown between accept() returning and the counting (accepted-not-counted window) and between counting and spawn, shutdown with a running connection, the last connection ending right after the flag store and right before notify, a second shutdown() caller inside remove_connection, a second caller inside _shutdown() between the once-only test and the spawn (with a pre-shutdown hook), a panicking handler, a pre-shutdown hook; observations: is wait() resolved while a connection is unfinished (must not), after all finished (must), is the port closed, the connection count, hooks acknowledged — compared with the model's run of the corresponding schedule of atomic actions; each scenario is repeated (3x quick); non-trivial = a hook point was used"
     }
     fn parallel(&self) -> bool {
         false
@@ -244,6 +252,9 @@ impl Group for Nested {
         }
         if out.contains("closed=0") {
             return Some((format!("listening:{name}"), format!("the listener still accepts after shutdown: {out}")));
+        }
+        if out.contains("completion-tasks=") {
+            return Some((format!("twice:{name}"), format!("more than one completion task was started (the later one's confirmation channel replaces the earlier one's: hooks can go unacknowledged): {out}")));
         }
         if out.contains("acked=0") {
             return Some((format!("hooks:{name}"), format!("completion before the pre-shutdown hook was handed its confirmation channel: {out}")));
